@@ -47,20 +47,20 @@ type resCall struct {
 }
 
 type c12 struct {
-	r        *core.Run
-	s        *Sched
-	bus      pubsub.Bus
-	svc      cluster.Service
-	cancel   context.CancelFunc
-	cfg      cluster.Config
-	nodes    []vec // last inventory the service received (available capacity per node)
-	haveInv  bool
-	out      []*mRes // outstanding reservations in grant order
-	calls    []*resCall
-	nextID   int
-	nextDSeq uint64
-	faults   int
-	tenant   string
+	r             *core.Run
+	s             *Sched
+	bus           pubsub.Bus
+	svc           cluster.Service
+	cancel        context.CancelFunc
+	cfg           cluster.Config
+	nodes         []vec // last inventory the service received (available capacity per node)
+	haveInv       bool
+	out           []*mRes // outstanding reservations in grant order
+	calls         []*resCall
+	nextID        int
+	nextDSeq      uint64
+	faults        int
+	tenant        string
 	pendingStatus bool
 }
 
